@@ -1,7 +1,7 @@
 """C12 — metadata set before the audio survives close and re-open unchanged."""
 import os, re, time
 from .. import meta as M
-from ..core import Violation, VERIF
+from ..core import Violation, VERIF, modules_for
 
 # class of a script (vlib/meta.py `expected`, mirroring the hypotheses of the …_partial theorems) -> known-finding id, failure
 # signatures that class may show.  `str-*` = any string mismatch.
@@ -384,7 +384,7 @@ def check_known(ctx, package):
 def run(ctx):
     if getattr(ctx, "replay", None):
         return replay(ctx)
-    failed = ctx.lean_stage(["SfProps.C12"])
+    failed = ctx.lean_stage(modules_for("C12"))
     if not os.path.exists(ctx.sfmodel()):
         ctx.violation("lean-stage", "the model driver does not build: %s\n%s" % (", ".join(failed), ctx.notes.get("lean_log_tail", "")), no_input=True)
         raise Violation()
